@@ -1,6 +1,6 @@
 (* Extract/C07.v — OCaml extraction of the UEFI core model plus the extract / reload model. *)
 From Fiano Require Import Base.Bytes Model.Ffs Model.Extract Model.TightenMe Model.FlashImage Model.ExtractFlash
-  Model.Nvar Model.ExtractNvar.
+  Model.Nvar Model.ExtractNvar Model.ExtractEdit.
 Require Extraction.
 Require Import ExtrOcamlBasic.
 Extraction Language OCaml.
@@ -15,7 +15,7 @@ Definition c7_nv_dir_save (pol : Z) (d : nat) (b : bytes) : outcome bytes :=
 Extraction "../ocaml/c07/model.ml" parse_region save_region parse_fv parse_file parse_section
   asm asm_bios node_buf create_pad_file
   extract extract_list extract_region reload reload_list json_project render_path
-  dir_save dir_save_tree extract_paths save_projected
+  dir_save dir_save_tree extract_paths save_projected dir_edit_save tree_edit_save
   paths_okb_list wf_treeb_list nodupb keys guid_string guid_parse
   flash_layout bios_tree flash_dir_save flash_extract_paths flash_save_twice_image
   c7_nv_paths c7_nv_dir_save.
